@@ -45,6 +45,7 @@ type child struct {
 	gate    *uint32
 	goid    int64
 	arrived bool
+	adopted bool
 	name    string
 }
 
@@ -154,13 +155,17 @@ func (s *Sched) note(task int, point string) {
 // into tasks, ordered by their stable names.
 func (s *Sched) adopt() {
 	s.mu.Lock()
-	if len(s.pending) == 0 {
-		s.mu.Unlock()
+	var pend []*child
+	for _, c := range s.pending {
+		if !c.adopted {
+			c.adopted = true
+			pend = append(pend, c)
+		}
+	}
+	s.mu.Unlock()
+	if len(pend) == 0 {
 		return
 	}
-	pend := s.pending
-	s.pending = nil
-	s.mu.Unlock()
 	deadline := time.Now().Add(10 * time.Second)
 	for {
 		s.mu.Lock()
